@@ -262,4 +262,42 @@ theorem ptLeaves_walk (adjE : Nat → List Edge) (wfilt : Edge → Option Nat) (
       rw [List.mem_filterMap]
       exact ⟨e, he, by rw [hw]; rfl⟩
 
+/-- a property of the root that every expansion step keeps holds of every leaf -/
+theorem treeLeaves_inv {α : Type} (children : α → List α) (isPath : α → Bool) (P : α → Prop)
+    (hstep : ∀ x c, P x → c ∈ children x → P c) : ∀ (F : Nat) (x y : α), P x → y ∈ treeLeaves children isPath F x → P y := by
+  intro F
+  induction F with
+  | zero => intro x y _ h; cases h
+  | succ F ih =>
+    intro x y hx h
+    rw [treeLeaves_succ] at h
+    split at h
+    · split at h
+      · simp at h; subst h; exact hx
+      · cases h
+    · obtain ⟨c, hc, hy⟩ := List.mem_flatMap.mp h
+      exact ih c y (hstep x c hx hc) hy
+
+/-- what every segment a traversal from `root` builds looks like: it ends in the root with `Edge = 0`, and all its ids
+are ids of the graph -/
+def SegWf (root : Nat) (w : List Seg) : Prop :=
+  (∃ pre, w = pre ++ [⟨root, 0⟩]) ∧ ∀ x ∈ w, x.node < 2 ^ 64 ∧ x.edge < 2 ^ 64
+
+theorem segWf_children (adjE : Nat → List Edge) (filt : Edge → Bool) (md : Int) (root : Nat)
+    (h64 : ∀ n, ∀ e ∈ adjE n, e.id < 2 ^ 64 ∧ e.start < 2 ^ 64 ∧ e.stop < 2 ^ 64) :
+    ∀ w c, SegWf root w → c ∈ segChildren adjE filt md Edge.other w → SegWf root c := by
+  intro w c hw hc
+  obtain ⟨_, e, he, _, rfl⟩ := mem_segChildren hc
+  obtain ⟨⟨pre, hpre⟩, hall⟩ := hw
+  have hb := h64 _ e he
+  refine ⟨⟨⟨e.other (segNode w), e.id⟩ :: pre, by rw [hpre]; rfl⟩, ?_⟩
+  intro x hx
+  rcases List.mem_cons.mp hx with rfl | hx
+  · refine ⟨?_, hb.1⟩
+    show e.other (segNode w) < 2 ^ 64
+    unfold Edge.other; split
+    · exact hb.2.2
+    · exact hb.2.1
+  · exact hall x hx
+
 end Dawgs.C14
